@@ -127,6 +127,47 @@ CLAIMED["C13"] = dict(
     technique="CBMC contract harnesses on the static container functions (sequence / ordered-map views)",
 )
 
+CLAIMED["C01"] = dict(
+    level="proof",
+    text="PARTIAL (structural links only). (1) _vnacal_layout carries a DFCC function contract: for all 9 error-term "
+         "types and dimensions 1..8 the sub-matrix regions plus outside leakage terms partition [0, error_terms) "
+         "and every region has the size documented by the header's own VL_*_ROWS/COLUMNS macros (full, diagonal or "
+         "per-column). (2) The matrices vnacal_apply hands to the linear solver for T8, TE10 and T16 calibrations "
+         "are proved cell by cell to be A = Ts - M'Tx, B = M'Tm - Ti with the leakage term of exactly that cell "
+         "subtracted, on the function text extracted from vnacal_apply.c each run and compiled over the ring Z/256. "
+         "With the assumed kernel contract (solve returns the solution) this gives S = (Ts - M Tx)^-1 (M Tm - Ti) "
+         "in exact arithmetic for those types.",
+    note="NOT covered: the calibrate side (_vnacal_new_add_common cell mapping, equation term generation, solve), "
+         "fill_u8/u16/ue14/e12, rfi values between knots, accuracy.  The end-to-end numerical statement of C01 is "
+         "out of reach of contract verification with CBMC; a numerical defect that keeps indices intact is invisible",
+    design="DESIGN.md 3 C01, 8.9",
+    technique="DFCC function contract (_vnacal_layout) + ring-substituted cell-wise contracts on extracted fill_t8/fill_t16",
+)
+CLAIMED["C07"] = dict(
+    level="proof",
+    text="NARROW: only the clause 'for every precision value the setters accept'.  The static number formatters of "
+         "vnacal_save.c (add_integer, add_double, add_complex) are verified, for every precision >= 1 and every "
+         "double, to write inside their buffers, against a length-exact sprintf contract; controls show the buffers "
+         "suffice up to precision 26 / 25.  The unbounded runs expose a genuine stack overflow (recorded as known "
+         "findings, demo under findings/).",
+    note="everything else about the save/load round trip (libyaml, property trees, legacy versions, bit-exactness) "
+         "is outside this technique and NOT decided; sprintf by assumed length contract",
+    design="DESIGN.md 3 C07, 8.10",
+    technique="CBMC contract harness on the static formatters with a length-exact sprintf contract",
+)
+CLAIMED["C17"] = dict(
+    level="proof",
+    text="NARROW: only the clause 'a through equals the line (0,1;1,0) equals the corresponding mapped matrix', for "
+         "both the a/b and the m forms: with the body of the common funnel _vnacal_new_add_common removed from the "
+         "compiled unit and replaced by a recording contract, the three entry points are proved to hand the funnel "
+         "field-for-field identical descriptions (dimensions, matrix pointers, the four S parameters, the port map, "
+         "flags) for all argument values - a complete, loop-free proof.",
+    note="order of standards, a/b scaling, frequencies together vs apart, E12 vs UE14, port renumbering, full vs "
+         "abbreviated matrices are numerical or depend on the funnel's body: NOT covered",
+    design="DESIGN.md 3 C17, 8.11",
+    technique="CBMC: entry points compared through a recording contract on the common funnel",
+)
+
 NA = {
     "C02": "iterative floating-point convergence (Levenberg-Marquardt / TRL) has no contract CBMC can discharge; see DESIGN.md 3 C02",
     "C06": "property is about bytes written by fprintf and read by an independent reader; no CBMC model of formatted I/O (a stub would be the oracle); DESIGN.md 3 C06",
